@@ -854,7 +854,10 @@ class TaggedValueCls(Generic[T], Config[T]):
           'Unexpected __fn_or_cls__ in TaggedValueCls; found:'
           f'{self.__fn_or_cls__}'
       )
-    return self.__fn_or_cls__(tags=self.tags, *args, **kwargs)
+    # `tags` may also have been configured explicitly (e.g. materialized from
+    # its default); the tags attached to the value always win.
+    kwargs['tags'] = self.tags
+    return self.__fn_or_cls__(*args, **kwargs)
 
 
 def _field_uses_default_factory(dataclass_type: Type[Any], field_name: str):
